@@ -99,6 +99,9 @@ func snapshot(v px.Value, fuel int) *PV {
 			return &PV{K: "nil"}
 		}
 		return En(snapshot(x.Key(), fuel-1), snapshot(x.Value(), fuel-1))
+	case *types.MutableHashValue:
+		// nested in the result of Hash.new(tree, 'tree') (xops.go): the Hash that it embeds
+		return snapshot(&x.Hash, fuel)
 	case *types.Hash:
 		n := x.Len()
 		r := &PV{K: "h", L: make([]*PV, n)}
@@ -312,6 +315,8 @@ func ApplyImpl(pool []px.Value, o Op) (res px.Value, errClass string) {
 			return types.WrapHashFromArray(a), ""
 		}
 		panic(badType{})
+	case "HashNew", "MapEntries":
+		return applyX(pool, o), ""
 	case "AsArray":
 		switch x := pool[o.R].(type) {
 		case *types.Hash:
